@@ -308,3 +308,12 @@ package mpt
 //@ may-panic
 //@ requires t != nil
 //@ modifies fields(BranchNode, Children), fields(ExtensionNode, next)
+
+// (C10) Decoding an extension node rejects a key only if it is longer than the longest path a
+// stored key can have: every extension this code can write reads back.
+//@ prop C10
+//@ func (*ExtensionNode).decodeBinaryWithDepth
+//@ may-panic
+//@ opt frame off
+//@ requires e != nil && io.validR(r)
+//@ call fmt::Errorf requires[toolong] sz > maxPathLength
